@@ -272,7 +272,7 @@ func TestC06(t *testing.T) {
 							return map[string]any{"case": key, "scenario": sc.name, "segment_change": sc.xover, "arrival": c06ArrNames[in.arr],
 								"ingress_if": in.id, "ingress_lt": c06LTName[in.lt], "egress_if": eg.id, "egress_kind": c06EgName[eg.kind],
 								"egress_lt": c06LTName[eg.lt], "disp": dispName(res.Fast.Disp), "router_egress": res.Fast.Egress,
-								"sp": fmt.Sprintf("type=%d code=%d ptr=%d", res.Fast.SPType, res.Fast.SPCode, res.Fast.SPPointer),
+								"sp":     fmt.Sprintf("type=%d code=%d ptr=%d", res.Fast.SPType, res.Fast.SPCode, res.Fast.SPPointer),
 								"packet": fmt.Sprintf("%x", raw)}
 						}
 						if res.Panic != nil {
